@@ -174,6 +174,68 @@ def run(chk: Check):
                 bad = [k for k in ("weights", "overlaps", "walkers", "shift") if rel(o[k], ref[k]) > TOL]
                 if bad:
                     chk.violation(f"propagate:{label}:n_batch", f"{label} N={N}: n_batch={nb} changes {bad}", {"label": label, "n_batch": nb})
+    # ------------------------------------------------------------------ B2. initial state from user-supplied walkers
+    # init_prop_data(init_walkers=...) is where the shift is first computed: with pairwise different walkers the initial
+    # estimate / shift must be a symmetric function of the population (here: the plain mean of the walkers' local
+    # energies, all weights being 1), overlaps must follow the walkers, and restricted / unrestricted containers of
+    # the same closed-shell population must start from the same state
+    def orthonormal(r, N, norb, nocc):
+        out = []
+        for _ in range(N):
+            a = r.normal(size=(norb, nocc)) + 1j * r.normal(size=(norb, nocc)) * 0.3
+            a[:nocc, :nocc] += 2.0 * np.eye(nocc)      # keep the trial overlap away from zero
+            out.append(np.linalg.qr(a)[0])
+        return np.array(out)
+    for plan in plans:
+        N = plan["n"]
+        r1 = np.random.default_rng(1470 + chk.seed + N)
+        init = {}
+        for wt, tk, nelec in (("rhf", "rhf", (2, 2)), ("uhf", "uhf", (2, 2)), ("uhf", "uhf", (2, 1))):
+            sysd = runlevel.make_system(np.random.default_rng(5), norb=4, nelec=nelec, nchol=3, trial_kind=tk, walker_type=wt,
+                                        n_walkers=N, dt=0.05, proxied=False)
+            trial, prop, ham = sysd["trial"], sysd["prop"], sysd["ham"]
+            hd = ham.build_measurement_intermediates(dict(sysd["ham_data"]), trial, sysd["wave_data"])
+            hd = ham.build_propagation_intermediates(hd, prop, trial, sysd["wave_data"])
+            if nelec == (2, 2):
+                wu = init.setdefault("closed", orthonormal(r1, N, 4, 2))
+                wk = jnp.array(wu) if wt == "rhf" else [jnp.array(wu), jnp.array(wu)]
+            else:
+                wk = [jnp.array(orthonormal(r1, N, 4, nelec[0])), jnp.array(orthonormal(r1, N, 4, nelec[1]))]
+            take = (lambda w, q: jnp.array(np.asarray(w)[q])) if wt == "rhf" else (lambda w, q: [jnp.array(np.asarray(x)[q]) for x in w])
+            pd = prop.init_prop_data(trial, sysd["wave_data"], hd, wk)
+            es = np.real(np.asarray(trial.calc_energy(wk, hd, sysd["wave_data"])))
+            tag = f"init_prop_data:{wt}:{nelec[0]}{nelec[1]}"
+            chk.case((tag, N, "mean"))
+            chk.traces += 1
+            got = (float(pd["e_estimate"]), float(pd["pop_control_ene_shift"]))
+            if max(abs(got[0] - es.mean()), abs(got[1] - es.mean())) > 1e-10 * max(1.0, abs(es.mean())):
+                chk.violation(f"{tag}:estimate-not-symmetric", f"{tag} N={N} with pairwise different user-supplied walkers (unit weights): "
+                              f"e_estimate / shift {got} is not the population mean {es.mean()} of the local energies {es.tolist()}",
+                              {"label": tag, "N": N})
+            for p in plan["perms"][:3]:
+                p0 = np.array([k - 1 for k in p])
+                pd2 = prop.init_prop_data(trial, sysd["wave_data"], hd, take(wk, p0))
+                chk.case((tag, N, tuple(p)))
+                chk.traces += 1
+                bad = []
+                if abs(float(pd2["e_estimate"]) - got[0]) > 1e-10 * max(1.0, abs(got[0])) or \
+                        abs(float(pd2["pop_control_ene_shift"]) - got[1]) > 1e-10 * max(1.0, abs(got[1])):
+                    bad.append("e_estimate/shift (not a symmetric function of the population)")
+                if rel(np.asarray(pd2["overlaps"]), np.asarray(pd["overlaps"])[p0]) > TOL:
+                    bad.append("overlaps")
+                if bad:
+                    chk.violation(f"{tag}:permutation", f"{tag} N={N}: permuting the supplied walkers by {p} changes {bad}: "
+                                  f"{float(pd2['e_estimate'])} vs {got[0]}", {"label": tag, "perm": p})
+            if nelec == (2, 2):
+                init[wt] = (got, np.asarray(pd["overlaps"]))
+        if "rhf" in init and "uhf" in init:
+            chk.case(("init_prop_data:restricted-vs-unrestricted", N))
+            d = max(abs(init["rhf"][0][0] - init["uhf"][0][0]), abs(init["rhf"][0][1] - init["uhf"][0][1]),
+                    float(np.max(np.abs(init["rhf"][1] - init["uhf"][1]))))
+            if d > 1e-9:
+                chk.violation("init_prop_data:restricted-vs-unrestricted", f"N={N}: the same closed-shell population gives a different "
+                              f"initial estimate/shift/overlaps in the restricted and unrestricted containers: {init['rhf'][0]} vs "
+                              f"{init['uhf'][0]} (max difference {d})", {"N": N})
     # ------------------------------------------------------------------ C. restricted vs unrestricted trajectories
     S = proxies.sampler_proxy()
     # C0. sampler level, including Cholesky matrices that are NOT symmetric (the two propagators must still build the
